@@ -367,6 +367,19 @@ def check_helps(chk, drv):
                 want += [SH.pascal_to_kebab(t) for t, _ in st["sub"]["tags"]]
             n += 1
             chk.evaluations += 1
+            # help within grammar: every option spelling an option row advertises is a declared literal
+            adv = []
+            for line in h.splitlines():
+                m = re.match(r"^ {2,6}(-{1,2}[^\s,]+(?:, -{1,2}[^\s,]+)*)\s*$", line)
+                if m:
+                    adv += m.group(1).split(", ")
+            declared = set(l for f in st["fields"] if f["kind"] != "positional" for l in SH.lits(f))
+            foreign = [a for a in adv if a not in declared]
+            if foreign:
+                chk.violate({"op": "help_printer", "got": "advertises-undeclared-spelling"},
+                            "help text of %s (shape %s) advertises %s, the parser of that level accepts %s" % (
+                                st["name"], shape["name"], foreign, sorted(declared)),
+                            {"mode": "help", "s": k + 1, "lvl": list(lvl), "help": h, "advertised": adv})
             missing = [w for w in want if w not in h]
             if missing or not h:
                 chk.violate({"op": "help_printer", "got": "missing-literal"},
